@@ -173,44 +173,67 @@ namespace BitSerializer::Convert::Utf
 					continue;
 				}
 
+				// Number of tails is declared by the start code, allowed range of the first tail is restricted for some of them
+				// (table 3-7 of the Unicode standard: excludes overlong forms, surrogates and code points above U+10FFFF)
 				int tails = 0;
 				bool isWrongSeq = false;
-				if ((sym & 0b11100000) == 0b11000000) { tails = 2; sym &= 0b00011111; }
-				else if ((sym & 0b11110000) == 0b11100000) { tails = 3; sym &= 0b00001111; }
-				else if ((sym & 0b11111000) == 0b11110000) { tails = 4; sym &= 0b00000111; }
+				uint8_t minTail = 0b10000000, maxTail = 0b10111111;
+				if ((sym & 0b11100000) == 0b11000000) { tails = 1; isWrongSeq = sym < 0xC2; sym &= 0b00011111; }
+				else if ((sym & 0b11110000) == 0b11100000)
+				{
+					tails = 2;
+					if (sym == 0xE0) { minTail = 0xA0; }
+					else if (sym == 0xED) { maxTail = 0x9F; }
+					sym &= 0b00001111;
+				}
+				else if ((sym & 0b11111000) == 0b11110000)
+				{
+					tails = 3;
+					isWrongSeq = sym > 0xF4;
+					if (sym == 0xF0) { minTail = 0x90; }
+					else if (sym == 0xF4) { maxTail = 0x8F; }
+					sym &= 0b00000111;
+				}
 				// Overlong sequence (was prohibited in the RFC 3629 since November 2003)
-				else if ((sym & 0b11111100) == 0b11111000) { isWrongSeq = true; tails = 5; }
-				else if ((sym & 0b11111110) == 0b11111100) { isWrongSeq = true; tails = 6; }
+				else if ((sym & 0b11111100) == 0b11111000) { isWrongSeq = true; tails = 4; }
+				else if ((sym & 0b11111110) == 0b11111100) { isWrongSeq = true; tails = 5; }
 				// Invalid start code
 				else {
 					isWrongSeq = true;
 				}
 
 				// Decode following tails
-				for (; tails > 1; --tails)
+				for (; tails > 0; --tails)
 				{
 					if (in == end) {
 						return UtfEncodingResult(UtfEncodingErrorCode::UnexpectedEnd, startTailPos, invalidSequencesCount);
 					}
 
-					if (!isWrongSeq)
+					const auto nextTail = static_cast<uint8_t>(*in);
+					if ((nextTail & 0b11000000) != 0b10000000)
 					{
-						const auto nextTail = static_cast<uint8_t>(*in);
-						if ((nextTail & 0b11000000) == 0b10000000)
-						{
-							sym <<= 6;
-							sym |= nextTail & 0b00111111;
-						}
 						// When tail has bad signature
-						else {
-							isWrongSeq = true;
+						isWrongSeq = true;
+						// It is not a part of wrong sequence when it can be a start of the next well-formed one
+						if (nextTail < 0x80 || (nextTail >= 0xC2 && nextTail <= 0xF4)) {
+							break;
 						}
 					}
+					else if (nextTail < minTail || nextTail > maxTail) {
+						isWrongSeq = true;
+					}
+					else
+					{
+						sym <<= 6;
+						sym |= nextTail & 0b00111111;
+					}
+					minTail = 0b10000000;
+					maxTail = 0b10111111;
 					++in;
 				}
 
-				// Error handling when wrong sequence or when surrogate pair (prohibited in the UTF-8)
-				if (isWrongSeq || UnicodeTraits::IsInSurrogatesRange(sym))
+				// Error handling when wrong sequence (including overlong form, surrogate pair or too big code point)
+				if (isWrongSeq)
 				{
 					++invalidSequencesCount;
 					if (!Detail::HandleEncodingError(outStr, errorPolicy, errorMark)) {
